@@ -34,6 +34,11 @@ def items(tier):
             if mode == "both" and n > b["active_set_both_max"]:
                 continue
             out.append(dict(kind="activeset", id="activeset-n%d-%s" % (n, mode), n=n, mode=mode, timeout=(400 if tier == "quick" else 1500)))
+            if mode == "amt":
+                # the same AggActiveSet object called before with another (fixed) vector of the same size, as inside an
+                # aggregation module in every design iteration
+                out.append(dict(kind="activeset", id="activeset-n%d-%s-second-call" % (n, mode), n=n, mode=mode, prior_call=True,
+                                timeout=(400 if tier == "quick" else 1500)))
     ns = b["scaling_n"] if isinstance(b["scaling_n"], list) else [b["scaling_n"]]
     for n in ns:
         for which in ("max", "min"):
@@ -49,10 +54,18 @@ def items(tier):
             out.append(dict(kind="bound-ks", id="bound-ks-n%d-%s" % (n, "pos" if sgn > 0 else "neg"), n=n, sgn=sgn))
         for p in b["pnorm_p"]:
             out.append(dict(kind="bound-pnorm", id="bound-pnorm-n%d-p%d" % (n, p), n=n, p=p))
+        if n == 2:
+            out.append(dict(kind="bound-softminmax", id="bound-softminmax-n2-pos-param-changed", n=n, sgn=+1, param_changed=True))
+            out.append(dict(kind="bound-ks", id="bound-ks-n2-neg-param-changed", n=n, sgn=-1, param_changed=True))
+            for p in b["pnorm_p"][:2]:
+                out.append(dict(kind="bound-pnorm", id="bound-pnorm-n2-p%d-param-changed" % p, n=n, p=p, param_changed=True))
     return out
 
 
 # ------------------------------------------------------------------------------------------------
+PRIOR_X = [3.0, -1.0, 2.0, 0.5, 7.0, -4.0]      # distinct values: lowest and highest at positions 1 and 0 (n = 3)
+
+
 def sc_activeset(V, P, cfg):
     import pymoto as pym
     n, mode = cfg["n"], cfg["mode"]
@@ -71,6 +84,8 @@ def sc_activeset(V, P, cfg):
     else:
         lr, ur = 0.0, 1.0
     a = pym.AggActiveSet(**kw)
+    if cfg.get("prior_call"):
+        a(np.array(PRIOR_X[:n]))
     sel = a(x)
     if sel is Ellipsis:
         mask = np.ones(n, dtype=bool)
@@ -212,7 +227,13 @@ def sc_bound_softminmax(V, P, cfg):
     al = V.real("alpha", positive=True, default=1.5)
     alpha = al if sgn > 0 else -al
     sig = pym.Signal("x", x)
-    m = pym.SoftMinMax(sig, alpha=alpha)
+    if cfg.get("param_changed"):
+        # history on one module: built and evaluated with another parameter, then the public attribute is set
+        m = pym.SoftMinMax(sig, alpha=alpha * 3)
+        m.response()
+        m.alpha = alpha
+    else:
+        m = pym.SoftMinMax(sig, alpha=alpha)
     m.response()
     y = m.sig_out[0].state
     if P is not None:
@@ -229,7 +250,12 @@ def sc_bound_ks(V, P, cfg):
     rh = V.real("rho", positive=True, default=1.5)
     rho = rh if sgn > 0 else -rh
     sig = pym.Signal("x", x)
-    m = pym.KSFunction(sig, rho=rho)
+    if cfg.get("param_changed"):
+        m = pym.KSFunction(sig, rho=rho * 3)
+        m.response()
+        m.rho = rho
+    else:
+        m = pym.KSFunction(sig, rho=rho)
     m.response()
     y = m.sig_out[0].state
     if P is not None:
@@ -267,7 +293,13 @@ def sc_bound_pnorm(V, P, cfg):
     n, p = cfg["n"], cfg["p"]
     x = V.reals("x", n, positive=True)
     sig = pym.Signal("x", x)
-    m = pym.PNorm(sig, p=(R.of(p) if V.symbolic else p))
+    pv = (R.of(p) if V.symbolic else p)
+    if cfg.get("param_changed"):
+        m = pym.PNorm(sig, p=(R.of(2 * p) if V.symbolic else 2 * p))
+        m.response()
+        m.p = pv
+    else:
+        m = pym.PNorm(sig, p=pv)
     m.response()
     y = m.sig_out[0].state
     if P is not None:
@@ -318,7 +350,10 @@ def replay(cfg, label, env, case):
             kw.update(lower_amt=la, upper_amt=ua)
         if mode != "amt":
             kw.update(lower_rel=lr, upper_rel=ur)
-        sel = pym.AggActiveSet(**kw)(x)
+        aobj = pym.AggActiveSet(**kw)
+        if cfg.get("prior_call"):
+            aobj(np.array(PRIOR_X[:n]))
+        sel = aobj(x)
         if sel is Ellipsis:
             ok = x.max() == x.min()
             return dict(reproduced=not ok, detail=dict(x=x.tolist(), sel="Ellipsis"))
